@@ -84,6 +84,20 @@ def native_layout(binary):
         if got != want:
             problems.append('after src/main.gleam and then gleam.toml were opened (second assembly of the package graph), a dependency\'s import of its own dependency: go-to-definition at %s of %s lands on %s, expected %s' % (pos, DEP_FIRST[0], got, want))
     out = out + out6
+    # a declared dependency that is not installed (added to gleam.toml, `gleam deps download` not run yet): the installed ones still resolve,
+    # directly and one level down
+    files7 = dict(FILES)
+    files7['gleam.toml'] = 'name = "app"\nversion = "0.1.0"\n\n[dependencies]\naaa_missing = "1.0"\ndep = "1.0"\nzzz_missing = "1.0"\n'
+    files7['build/packages/dep/gleam.toml'] = 'name = "dep"\nversion = "1.0.0"\n\n[dependencies]\naaa_gone = "1.0"\ntrans = "1.0"\n'
+    out7, alive7 = lsp_replay.workspace_scenario(binary, files7, 'src/main.gleam', [PROBES[0][0]])
+    out7b, alive7b = lsp_replay.workspace_scenario(binary, files7, DEP_FIRST[0], [p[0] for p in DEP_FIRST[1]], pre_open=['src/main.gleam'])
+    if not (alive7 and alive7b):
+        problems.append('the server died on a project with a declared but not installed dependency')
+    if out7 != [PROBES[0][1]]:
+        problems.append('gleam.toml declares dependencies that are not installed next to an installed one: go-to-definition at %s of src/main.gleam lands on %s, expected %s' % (PROBES[0][0], out7, PROBES[0][1]))
+    if out7b != [DEP_FIRST[1][0][1]]:
+        problems.append('a dependency declares a dependency that is not installed next to an installed one: go-to-definition at %s of %s lands on %s, expected %s' % (DEP_FIRST[1][0][0], DEP_FIRST[0], out7b, DEP_FIRST[1][0][1]))
+    out = out + out7 + out7b
     from . import c08
     out5, alive5 = lsp_replay.workspace_scenario(binary, c08.DEVDEP_FILES, 'test/app_test.gleam', [(3, 10)], pre_open=['src/app.gleam'])
     if not alive5:
